@@ -37,7 +37,16 @@ RULE = ("finite catalogue of call sites (name -> argument builders + call) cross
         "two-call history. Three-call history (sites of stat/, data/, gis/): arguments A and B (= the data "
         "patterns of seed and seed+1, same shapes) are built once; call(A), call(B), call(A); all "
         "snapshots compared after every call, third result against a private deep copy of the first, the "
-        "object returned first against that copy after the later calls.")
+        "object returned first against that copy after the later calls. Before every call of a history the "
+        "C allocator's free lists are refilled with blocks holding a byte pattern (another pattern per call), "
+        "so that a result cell read from memory the kernel never wrote differs between the calls. Method "
+        "histories of one Catchment: every sequence of the operations {delineate_boundary (without/with mask), "
+        "compute_flowpathlengths, intersect (unfilled/filled), extent, to_dict, clone, +, -, voronoi, "
+        "delineate_area again, upstream, downstream (+ plot_area, plot_boundary, from_dict in thorough)} up to "
+        "depth 2 (3 thorough) containing at least one state-changing operation before its last step, on three "
+        "flow-direction grids (plain, with an inlet, ring whose filled area is larger), each on a fresh "
+        "catchment; after every step all queries with fixed arguments are observed again and must equal the "
+        "observations taken right after delineate_area (derived state from its first appearance).")
 ASSUMPTIONS = [
     "the catalogue lists the functions of the modules named by the property that accept numeric array-like data; pure scalar helpers (ppos, oz_timezone, compute_percentiles), plotting decorators without data arguments and file I/O (Grid.save/load) are not call sites",
     "arguments documented as output buffers are exempt (gutils.points_inside_polygon(inside=...)); methods whose purpose is to change their object (Grid.data setter, Grid.__setitem__, Catchment.delineate_*) may change self, their array arguments are still watched",
@@ -54,8 +63,9 @@ ASSUMPTIONS = [
     "three-call history: when the first result cannot be deep-copied (no such site today) the comparison uses the live object and the case is counted (history3.result-not-copyable)",
 ]
 TECHNIQUE = ("bounded exhaustive enumeration of call site x input layout x size ladder x two-call / three-call "
-             "history on the real functions; invariance oracle (argument snapshots) and differential oracle "
-             "(call 1 vs call 2, call 1 vs call 3 after an unrelated call)")
+             "history on the real functions, and of every Catchment operation sequence up to depth 2 (3 thorough); "
+             "invariance oracle (argument snapshots, observations of the object after every step) and differential "
+             "oracle (call 1 vs call 2 with a re-patterned heap, call 1 vs call 3 after an unrelated call)")
 
 LAYOUTS = ["c64", "strided", "fortran", "int64", "f32", "pandas"]
 LAYOUTS_THOROUGH = LAYOUTS + ["reversed"]
@@ -134,7 +144,8 @@ def bound_text(tier, seed):
     return ("%s: %d call sites x layouts %s x sizes %s x {no NaN, one NaN} x two-call history%s; "
             "size ladder %s (per-site caps %s) x layouts %s x two-call history for the %d sites whose arguments "
             "scale with the size; three-call history (A, B = same shapes other data, A) x sizes %s x layouts %s "
-            "for the %d sites of stat/, data/, gis/; data patterns rotated by seed %d" % (
+            "for the %d sites of stat/, data/, gis/; %d Catchment operation sequences (depth <= %d, %d operations, 3 "
+            "flow-direction grids); data patterns rotated by seed %d" % (
                 tier, len(catalogue()), LAYOUTS if tier == "quick" else LAYOUTS_THOROUGH, sizes(tier),
                 "" if tier == "quick" else "; plus every single argument alone in each layout (others C-contiguous float64) "
                 "and the transform parameter lattice",
@@ -142,7 +153,8 @@ def bound_text(tier, seed):
                 {k: v[0 if tier == "quick" else 1] for k, v in sorted(LADDER_CAP.items())},
                 ["%s%s" % (l, "+NaN" if nn else "") for l, nn in ladder_layouts(tier)], nlad,
                 [12, 257] if tier == "quick" else [12, 31, 257, 1025],
-                history3_layouts(tier), nh3, seed))
+                history3_layouts(tier), nh3, sum(1 for _ in obj_cases(tier, seed)), obj_depth(tier),
+                len(OBJ_OPS if tier == "quick" else OBJ_OPS_THOROUGH), seed))
 
 
 def ladder_layouts(tier):
